@@ -113,34 +113,46 @@ def battery(run, repo):
         if name.endswith(".diff"):
             items.append(("benign", name[:-5], os.path.join(bd, name)))
     res = {"breaking_fired": 0, "breaking_total": 0, "benign_silent": 0, "benign_total": 0, "skipped": [], "details": []}
-    for kind, name, patch in items:
+
+    def one(item):
+        kind, name, patch = item
         d = _scratch_copy(repo)
         try:
             r = subprocess.run(["git", "apply", "--whitespace=nowarn", patch], cwd=d, capture_output=True, text=True)
             if r.returncode != 0:
-                res["skipped"].append(f"{name}: patch does not apply to the tree under test")
-                continue
+                return kind, name, None, ""
             env = dict(os.environ, VERIF_SCRATCH_EVIDENCE=os.path.join(d, ".verif-evidence"))
             o = subprocess.run(["/venv/bin/python", os.path.join(VERIF, "check"), prop, "--repo", d, "--quiet", "--tier", "quick"],
                                capture_output=True, text=True, env=env)
-            first = next((l.strip()[:160] for l in o.stdout.splitlines() if l.strip().startswith("rule ")), "")
-            res["details"].append({"variant": name, "kind": kind, "rc": o.returncode, "first": first})
-            if kind == "breaking":
-                res["breaking_total"] += 1
-                if o.returncode == 1:
-                    res["breaking_fired"] += 1
-                else:
-                    raise AnalysisError(f"armed-ness battery: the check did not fire (rc={o.returncode}) on seeded change {name}")
-            else:
-                res["benign_total"] += 1
-                if o.returncode == 0:
-                    res["benign_silent"] += 1
-                elif o.returncode == 1:
-                    raise AnalysisError(f"armed-ness battery: false alarm on behaviour-preserving variant {name}: {first}")
-                else:
-                    res["skipped"].append(f"{name}: analysis undecided on this refactoring (exit 2)")
+            first = next((l.strip()[:160] for l in o.stdout.splitlines() if l.strip().startswith("rule ") or "ANALYSIS-ERROR" in l), "")
+            return kind, name, o.returncode, first
         finally:
             shutil.rmtree(d, ignore_errors=True)
+    import concurrent.futures as cf
+    with cf.ThreadPoolExecutor(max_workers=min(14, (os.cpu_count() or 4))) as ex:
+        results = list(ex.map(one, items))
+    failures = []
+    for kind, name, rc, first in results:
+        if rc is None:
+            res["skipped"].append(f"{name}: patch does not apply to the tree under test")
+            continue
+        res["details"].append({"variant": name, "kind": kind, "rc": rc, "first": first})
+        if kind == "breaking":
+            res["breaking_total"] += 1
+            if rc == 1:
+                res["breaking_fired"] += 1
+            else:
+                failures.append(f"the check did not fire (rc={rc}) on seeded change {name}")
+        else:
+            res["benign_total"] += 1
+            if rc == 0:
+                res["benign_silent"] += 1
+            elif rc == 1:
+                failures.append(f"false alarm on behaviour-preserving variant {name}: {first}")
+            else:
+                res["skipped"].append(f"{name}: analysis undecided on this refactoring (exit 2)")
     run.extra["battery"] = res
+    if failures:
+        raise AnalysisError("armed-ness battery: " + "; ".join(failures[:3]))
     run.ok("T2", f"battery: {res['breaking_fired']}/{res['breaking_total']} breaking variants flagged, "
                  f"{res['benign_silent']}/{res['benign_total']} behaviour-preserving variants silent, {len(res['skipped'])} skipped")
